@@ -311,3 +311,178 @@ Example C19_arclen_2d_corner_measure : forall r big,
   0 < r -> r <= big ->
   has_arc_measure (fun theta => 0 <= 0 + r * cos theta <= big /\ 0 <= 0 + r * sin theta <= big) (PI / 2).
 Proof. exact corner_quarter_measure. Qed.
+
+(* ================================================================== *)
+(* ROUTE T: the edge-correction code as it is NOW                      *)
+(* (Gen/static_geom.v, Model/StaticGeom3.v, Proofs/StaticGen.v,        *)
+(*  Proofs/StaticGeom3.v)                                              *)
+(* ================================================================== *)
+(* Gen/static_geom.v is regenerated by tools/py2coq_static.py from the current
+   text of trackpy/static.py on every run of the check: py_<f> is the Python
+   function f read for ONE point (one row of dist / pos), over R; a boolean-mask
+   update  acc[mask] -= v  subtracts  py_masked c v = (if c then v else 0)  with c
+   the decidable comparison (Rlt_dec) of the mask; the final
+   arr[arr < eps] = nan  makes the result an option (None = NaN).  The theorems
+   above are about hand-written models; the theorems below tie the generated
+   functions to them for ALL real arguments, and restate the headline theorem
+   about the generated function.  A changed formula, mask, loop list or
+   threshold changes the generated text and breaks these proofs. *)
+From TP Require Import Model.StaticGeom3 Gen.static_geom Proofs.StaticGen Proofs.StaticGeom3.
+
+(* nan_below thr v = if v < thr then None else Some v *)
+Theorem C19_nan_below_spec : forall thr v,
+  (v < thr -> nan_below thr v = None) /\ (thr <= v -> nan_below thr v = Some v).
+Proof. exact nan_below_spec. Qed.
+
+(* the five closed formulas *)
+Theorem C19_generated_formulas_are_model :
+  (forall h r, py_circle_cap_arclen h r = circle_cap_arclen h r) /\
+  (forall h1 h2 r, py_circle_corner_arclen h1 h2 r = circle_corner_arclen h1 h2 r) /\
+  (forall h r, py_sphere_cap_area h r = sphere_cap_area h r) /\
+  (forall x y r, py_sphere_edge_area x y r = sphere_edge_area x y r) /\
+  (forall x y z r, py_sphere_corner_area x y z r = sphere_corner_area x y z r).
+Proof. exact gen_formulas_are_model. Qed.
+Print Assumptions C19_generated_formulas_are_model.
+
+(* arclen_2d_bounded(dist, pos, box) for one row: dist = r, pos = (cx, cy),
+   box = [[x0, x1], [y0, y1]]: the model's inclusion-exclusion value, NaN-ed out
+   below 10^-5 r.  No hypothesis. *)
+Theorem C19_generated_arclen_2d_bounded_is_model : forall r cx cy x0 x1 y0 y1,
+  py_arclen_2d_bounded r cx cy x0 x1 y0 y1
+  = nan_below (/ (10 ^ 5) * r) (arclen_2d r (cx - x0) (x1 - cx) (cy - y0) (y1 - cy)).
+Proof. exact gen_arclen_2d_bounded_is_model. Qed.
+Print Assumptions C19_generated_arclen_2d_bounded_is_model.
+
+(* area_3d_bounded for one row: area_3d (Model/StaticGeom3.v) = 4 PI r^2 - six
+   masked caps + twelve masked edges - eight masked corners over the wall
+   distances [x-, x+, y-, y+, z-, z+], NaN-ed out below 10^-7 r^2. *)
+Theorem C19_generated_area_3d_bounded_is_model : forall r cx cy cz x0 x1 y0 y1 z0 z1,
+  py_area_3d_bounded r cx cy cz x0 x1 y0 y1 z0 z1
+  = nan_below (/ (10 ^ 7) * r ^ 2)
+              (area_3d r (cx - x0) (x1 - cx) (cy - y0) (y1 - cy) (cz - z0) (z1 - cz)).
+Proof. exact gen_area_3d_bounded_is_model. Qed.
+Print Assumptions C19_generated_area_3d_bounded_is_model.
+
+(* HEADLINE, about the code as it is now.  For every r > 0 and every centre in
+   the closed box, with m the angular measure of the directions theta in
+   (-PI, PI] whose point centre + r (cos theta, sin theta) lies in the box
+   (m exists, and is unique by C19_arc_measure_unique):
+   the generated arclen_2d_bounded returns r * m, the length of the part of the
+   circle inside the box, unless m < 10^-5, where it returns NaN. *)
+Theorem C19_generated_arclen_2d_bounded_is_measure : forall r cx cy x0 x1 y0 y1,
+  0 < r -> (x0 <= cx <= x1 /\ y0 <= cy <= y1) ->
+  exists m,
+    has_arc_measure (fun theta => x0 <= cx + r * cos theta <= x1 /\ y0 <= cy + r * sin theta <= y1) m /\
+    (m < / (10 ^ 5) -> py_arclen_2d_bounded r cx cy x0 x1 y0 y1 = None) /\
+    (/ (10 ^ 5) <= m -> py_arclen_2d_bounded r cx cy x0 x1 y0 y1 = Some (r * m)).
+Proof. exact gen_arclen_2d_bounded_is_measure. Qed.
+Print Assumptions C19_generated_arclen_2d_bounded_is_measure.
+
+(* whenever the generated function returns a number, that number is the
+   Riemann integral of r dtheta over the directions inside the box *)
+Theorem C19_generated_arclen_2d_bounded_is_integral : forall r cx cy x0 x1 y0 y1 v,
+  0 < r -> (x0 <= cx <= x1 /\ y0 <= cy <= y1) ->
+  py_arclen_2d_bounded r cx cy x0 x1 y0 y1 = Some v ->
+  is_RInt (fun theta => r * box_indicator x0 x1 y0 y1 (cx + r * cos theta) (cy + r * sin theta)) (- PI) PI v.
+Proof. exact gen_arclen_2d_bounded_is_integral. Qed.
+Print Assumptions C19_generated_arclen_2d_bounded_is_integral.
+
+(* the 3-D consistency identities, about the generated formulas *)
+Theorem C19_generated_sphere_identities :
+  (forall x y r, py_sphere_edge_area x y r = 2 * py_sphere_corner_area x y 0 r) /\
+  (forall x r, py_sphere_edge_area x 0 r = py_sphere_cap_area x r / 2) /\
+  (forall r, py_sphere_corner_area 0 0 0 r = 4 * PI * (r * r) / 8).
+Proof. exact gen_sphere_identities. Qed.
+
+(* ================================================================== *)
+(* 3-D edge correction = area of the sphere inside the box, when only    *)
+(* faces perpendicular to one axis are within reach  (PARTIAL)           *)
+(* ================================================================== *)
+(* Area on the sphere of radius r, measured about a coordinate axis ax
+   (Model/StaticGeom3.v): sphere_pt ax r phi t is the point at height t along
+   the axis and azimuth phi around it (it lies on the sphere:
+   C19_sphere_pt_on_sphere); [has_axial_area ax r S a]: for every -r < t < r the
+   slice { phi | sphere_pt ax r phi t in S } has angular measure m t
+   (has_arc_measure, as in 2-D) and a is the Riemann integral of r * m t over
+   [-r, r]  (Archimedes: the area element in the coordinates (phi, t) is
+   r dphi dt).  a is unique (C19_axial_area_unique); the whole sphere has
+   4 PI r^2 about every axis (C19_whole_sphere_area).
+
+   THEOREM.  r > 0, centre in the closed box, and the four faces PARALLEL to
+   the axis ax are at distance >= r ([across] lists their distances): then
+   area_3d_bounded -- the generated function, with its NaN mask below
+   10^-7 r^2 -- is the area, about ax, of the part of the sphere inside the box.
+   The two faces perpendicular to ax are unconstrained: no cap, one cap ("the
+   sphere crosses at most one face") or two opposite caps.
+
+   PARTIAL because (i) edges and corners (two or three mutually adjacent faces
+   within reach: sphere_edge_area, sphere_corner_area) are not derived -- for
+   those only the consistency identities above and the numerical reference of
+   the correspondence run; (ii) the area is the one measured about the axis of
+   the crossed faces: r dphi dt IS the Euclidean surface element of that
+   parametrisation (C19_axial_area_element below), but that the resulting
+   surface integral does not depend on the parametrisation / axis (rotation
+   invariance of area) is a classical fact not proved here. *)
+Theorem C19_area_3d_single_cap_partial : forall ax r cx cy cz x0 x1 y0 y1 z0 z1,
+  0 < r -> (x0 <= cx <= x1 /\ y0 <= cy <= y1 /\ z0 <= cz <= z1) ->
+  List.Forall (fun h => r <= h) (across ax (cx - x0) (x1 - cx) (cy - y0) (y1 - cy) (cz - z0) (z1 - cz)) ->
+  exists a,
+    has_axial_area ax r
+      (fun p => x0 <= cx + fst (fst p) <= x1 /\ y0 <= cy + snd (fst p) <= y1 /\ z0 <= cz + snd p <= z1) a /\
+    py_area_3d_bounded r cx cy cz x0 x1 y0 y1 z0 z1 = nan_below (/ (10 ^ 7) * r ^ 2) a.
+Proof. exact gen_area_3d_bounded_one_axis. Qed.
+Print Assumptions C19_area_3d_single_cap_partial.
+
+(* the value in that regime: 2 PI r (min lo r + min hi r), lo / hi the distances
+   of the two faces perpendicular to the axis (hat-box: zone of height lo' + hi') *)
+Theorem C19_area_3d_one_axis_value : forall ax r xm xp ym yp zm zp,
+  0 < r -> List.Forall (fun h => r <= h) (across ax xm xp ym yp zm zp) ->
+  area_3d r xm xp ym yp zm zp
+  = 2 * PI * r * (Rmin (fst (along ax xm xp ym yp zm zp)) r + Rmin (snd (along ax xm xp ym yp zm zp)) r).
+Proof. exact area_3d_one_axis. Qed.
+
+Theorem C19_sphere_pt_on_sphere : forall ax r phi t,
+  - r <= t <= r ->
+  let p := sphere_pt ax r phi t in
+  fst (fst p) * fst (fst p) + snd (fst p) * snd (fst p) + snd p * snd p = r * r.
+Proof. exact sphere_pt_on_sphere. Qed.
+
+Theorem C19_axial_area_unique : forall ax r (S : R * R * R -> Prop) a a',
+  0 < r -> has_axial_area ax r S a -> has_axial_area ax r S a' -> a = a'.
+Proof. exact axial_area_unique. Qed.
+Print Assumptions C19_axial_area_unique.
+
+Theorem C19_whole_sphere_area : forall ax r, 0 < r -> has_axial_area ax r (fun _ => True) (4 * PI * (r * r)).
+Proof. exact whole_sphere_area. Qed.
+
+(* non-vacuity / instances: no face within reach -> 4 PI r^2; centre on one
+   face, the others far -> the half sphere; the across-hypothesis is satisfiable
+   with a cap present (r = 2, the z+ face at distance 1). *)
+Theorem C19_area_3d_no_wall : forall r xm xp ym yp zm zp,
+  0 < r -> r <= xm -> r <= xp -> r <= ym -> r <= yp -> r <= zm -> r <= zp ->
+  area_3d r xm xp ym yp zm zp = 4 * PI * (r * r).
+Proof. exact area_3d_no_wall. Qed.
+Theorem C19_area_3d_on_face : forall r big,
+  0 < r -> r <= big -> area_3d r big big big big 0 big = 2 * PI * (r * r).
+Proof. exact area_3d_on_face. Qed.
+Example C19_area_3d_single_cap_example :
+  List.Forall (fun h => 2 <= h) (across AZ (5 - 0) (10 - 5) (5 - 0) (10 - 5) (5 - 0) (6 - 5)) /\
+  area_3d 2 5 5 5 5 5 1 = 2 * PI * 2 * (2 + 1).
+Proof. exact area_3d_single_cap_example. Qed.
+
+(* The area element behind has_axial_area: for -r < t < r the partial derivatives
+   dphi, dt of (phi, t) |-> sphere_pt ax r phi t exist (componentwise, X3 / Y3 /
+   Z3 = the three coordinates) and |dphi x dt|^2 = r^2, i.e. the Euclidean
+   surface element of the parametrisation is r dphi dt. *)
+Theorem C19_axial_area_element : forall ax r phi t,
+  0 < r -> - r < t < r ->
+  exists dphi dt : R * R * R,
+    (is_derive (fun s => X3 (sphere_pt ax r s t)) phi (X3 dphi) /\
+     is_derive (fun s => Y3 (sphere_pt ax r s t)) phi (Y3 dphi) /\
+     is_derive (fun s => Z3 (sphere_pt ax r s t)) phi (Z3 dphi)) /\
+    (is_derive (fun s => X3 (sphere_pt ax r phi s)) t (X3 dt) /\
+     is_derive (fun s => Y3 (sphere_pt ax r phi s)) t (Y3 dt) /\
+     is_derive (fun s => Z3 (sphere_pt ax r phi s)) t (Z3 dt)) /\
+    norm2 (cross3 dphi dt) = r * r.
+Proof. exact axial_area_element. Qed.
+Print Assumptions C19_axial_area_element.
